@@ -74,6 +74,10 @@ EXPLANATION += (
     ' Round 8: CSR range readers return re-based pointers on every path; stored values are placed by their column index (R-SAMEVAL/pointers-rebased, /placed-by-index).'
 )
 
+EXPLANATION += (
+    " Round 9: an array allocated with another array's element type is used as the same kind of sparse-matrix member (R-DTYPE/borrowed-type)."
+)
+
 RULE_TEXT = (
     "one obligation per (dispatcher, encoding member), per arm-"
     "distinctness relation, per cursor relation, per range step / slice "
